@@ -170,7 +170,7 @@ func term(in Input, o Obs) string {
 	if in.SetKey == "db" {
 		setkey = "KDb"
 	}
-	pv := map[string]string{"map_db": "PVMapDb", "map_field": "PVMapField", "struct": "PVStruct", "": "PVMapDb"}[in.PayVia]
+	pv := map[string]string{"map_db": "PVMapDb", "map_field": "PVMapField", "struct": "PVStruct", "struct_ptr": "PVStruct", "": "PVMapDb"}[in.PayVia]
 	op := lib.App("mk_op", kind, gTy(in.Type), gShape(in.Shape), gRecs(in.Recs), assocs,
 		lib.Bool(in.Skip), txm, gInts(in.Fails), gInts(in.Sets), setkey, lib.Z(in.Pay), pv, lib.Z(in.Limit), lib.ListOf(in.Seed, gRow),
 		lib.App("mk_opts", lib.Bool(in.SetAll), lib.Z(int64(in.DelAssoc)), lib.Bool(in.Preload), lib.Bool(in.SetAfter)))
@@ -489,7 +489,7 @@ func (g *gen) input(edge bool) Input {
 		}
 	}
 	if in.Op == "updates" || in.Op == "update_columns" {
-		in.PayVia = lib.Pick(r, []string{"map_db", "map_field", "struct"})
+		in.PayVia = lib.Pick(r, []string{"map_db", "map_field", "struct", "struct_ptr"})
 	} else if in.Op == "update" || in.Op == "update_column" {
 		in.PayVia = lib.Pick(r, []string{"map_db", "map_field"})
 	}
@@ -785,6 +785,7 @@ func main() {
 			{Op: "save", Recs: []RecIn{{ID: 9, Tag: 9, Val: 90}}, Seed: g.seed(2)},
 			{Op: "update", Recs: []RecIn{{ID: 1, Tag: 1, Val: 10}}, Seed: g.seed(2), Pay: 65},
 			{Op: "updates", Recs: []RecIn{{ID: 2, Tag: 2, Val: 20}}, Seed: g.seed(2), Pay: 66, PayVia: "struct"},
+			{Op: "updates", Recs: []RecIn{{ID: 2, Tag: 2, Val: 20}}, Seed: g.seed(2), Pay: 69, PayVia: "struct_ptr"},
 			{Op: "delete", Recs: []RecIn{{ID: 1, Tag: 1, Val: 10}}, Seed: g.seed(2)},
 			{Op: "first", Seed: g.seed(2), Limit: 2},
 		} {
@@ -826,6 +827,7 @@ func main() {
 			{Op: "create", Recs: []RecIn{{Tag: 101, Val: 1}, {Tag: 102, Val: 2}}},
 			{Op: "save", Recs: []RecIn{{ID: 1, Tag: 1, Val: 11}, {Tag: 102, Val: 2}}, Seed: g.seed(2)},
 			{Op: "updates", Recs: []RecIn{{ID: 1, Tag: 1, Val: 10}, {ID: 2, Tag: 2, Val: 20}}, Seed: g.seed(3), Pay: 67, PayVia: "struct"},
+			{Op: "updates", Recs: []RecIn{{ID: 1, Tag: 1, Val: 10}, {ID: 2, Tag: 2, Val: 20}}, Seed: g.seed(3), Pay: 70, PayVia: "struct_ptr"},
 			{Op: "update", Recs: []RecIn{{ID: 1, Tag: 1, Val: 10}, {ID: 2, Tag: 2, Val: 20}}, Seed: g.seed(3), Pay: 68, PayVia: "map_db"},
 			{Op: "delete", Recs: []RecIn{{ID: 1, Tag: 1, Val: 10}, {ID: 3, Tag: 3, Val: 30}}, Seed: g.seed(3)},
 		} {
@@ -883,7 +885,7 @@ func main() {
 						continue
 					}
 					for _, op := range []string{"create", "updates", "delete"} {
-						in := Input{Op: op, Type: ti.Name, Shape: sh, TxMode: "default", PayVia: "struct", SetKey: "field", Pay: 77, Seed: g.seed(6)}
+						in := Input{Op: op, Type: ti.Name, Shape: sh, TxMode: "default", PayVia: []string{"struct", "struct_ptr"}[n%2], SetKey: "field", Pay: 77, Seed: g.seed(6)}
 						for i := 1; i <= n; i++ {
 							if op == "create" {
 								in.Recs = append(in.Recs, RecIn{Tag: int64(100 + i), Val: int64(i)})
@@ -900,6 +902,6 @@ func main() {
 			}
 		}
 	}
-	out.Extra["rule"] = "cases = operation {Create, CreateInBatches (every relation of length to batch size), Save, Update, Updates(map by column / by field name / struct), UpdateColumn(s), Delete, Find, First} x 15 model types (hook presence x pointer/value receivers, incl. none, mixed, wrong signature, and single value-receiver hooks whose phase partner is absent) x argument shape {*T, T, []T, *[]T, []*T, *[]*T, *[n]T, [n]T, *[n]*T, [n]*T} x 0..6 records x has-many/belongs-to values with hooks of their own (incl. one belongs-to record shared by several owners of a slice, and cyclic graphs: kids holding a belongs-to to a keeper whose has-many wards they are, kids pointing back to their owner) x SkipHooks x {default transaction, explicit outer transaction, SkipDefaultTransaction} x failure injected at one or two hook invocations (plain errors and errors wrapping gorm's sentinel errors ErrRecordNotFound / ErrInvalidTransaction / ErrMissingWhereClause / ErrInvalidValue / ErrEmptySlice / ErrInvalidData) x SetColumn from before-hooks (per record and, with the fromCallbacks flag, for every record of a slice) x RETURNING / no-RETURNING dialect capability x Clauses(Returning) on update/delete x Delete with Select(has-many) x Find/First with Preload of has-many values carrying AfterFind hooks x a type whose hook methods have the wrong signature; distinct = distinct (op,type,shape,n,associations,skip,txmode,fails,sets,payload form) tuples; non-trivial = at least 2 hook invocations observed and (a failing invocation was reached, or more than one record, or a SetColumn call)"
+	out.Extra["rule"] = "cases = operation {Create, CreateInBatches (every relation of length to batch size), Save, Update, Updates(map by column / by field name / struct value / pointer to a struct of the model type), UpdateColumn(s), Delete, Find, First} x 15 model types (hook presence x pointer/value receivers, incl. none, mixed, wrong signature, and single value-receiver hooks whose phase partner is absent) x argument shape {*T, T, []T, *[]T, []*T, *[]*T, *[n]T, [n]T, *[n]*T, [n]*T} x 0..6 records x has-many/belongs-to values with hooks of their own (incl. one belongs-to record shared by several owners of a slice, and cyclic graphs: kids holding a belongs-to to a keeper whose has-many wards they are, kids pointing back to their owner) x SkipHooks x {default transaction, explicit outer transaction, SkipDefaultTransaction} x failure injected at one or two hook invocations (plain errors and errors wrapping gorm's sentinel errors ErrRecordNotFound / ErrInvalidTransaction / ErrMissingWhereClause / ErrInvalidValue / ErrEmptySlice / ErrInvalidData) x SetColumn from before-hooks (per record and, with the fromCallbacks flag, for every record of a slice) x RETURNING / no-RETURNING dialect capability x Clauses(Returning) on update/delete x Delete with Select(has-many) x Find/First with Preload of has-many values carrying AfterFind hooks x a type whose hook methods have the wrong signature; distinct = distinct (op,type,shape,n,associations,skip,txmode,fails,sets,payload form) tuples; non-trivial = at least 2 hook invocations observed and (a failing invocation was reached, or more than one record, or a SetColumn call)"
 	lib.Must(out.Flush())
 }
